@@ -2,6 +2,7 @@ package main
 
 import (
 	"fmt"
+	"mime"
 	"go/types"
 	"net/textproto"
 	"strings"
@@ -214,6 +215,10 @@ func init() {
 		}
 		return nil
 	})
+	// net/textproto.MIMEHeader has the same representation and methods
+	for _, meth := range []string{"Set", "Add", "Get", "Del"} {
+		intrinsics["(net/textproto.MIMEHeader)."+meth] = intrinsics["(net/http.Header)."+meth]
+	}
 	R("(net/url.Values).Get", func(m *Machine, a []Value) Value {
 		h := a[0].(*MapV)
 		if i := h.find(m, a[1]); i >= 0 {
@@ -320,6 +325,31 @@ func init() {
 			return Tuple{Iface{}, m.errorValue("multipart: can't create part after Close")}
 		}
 		return Tuple{partWriter(m, w, &mpPart{field: m.concStr(a[1], "form file field"), filename: m.concStr(a[2], "file name"), isFile: true}), Iface{}}
+	})
+	// CreatePart: the part is what a receiving mime/multipart reader makes of the header the caller built
+	// (Content-Disposition parsed natively by mime.ParseMediaType, as multipart.Part.FormName/FileName do;
+	// a header it cannot parse leaves the part without form name)
+	R("(*mime/multipart.Writer).CreatePart", func(m *Machine, a []Value) Value {
+		w := mpw(m, a[0])
+		if w.closed {
+			return Tuple{Iface{}, m.errorValue("multipart: can't create part after Close")}
+		}
+		p := &mpPart{}
+		if h, ok := a[1].(*MapV); ok && h != nil {
+			if i := h.find(m, "Content-Disposition"); i >= 0 {
+				if sv := h.Vals[i].(*SliceV); sv != nil && len(sv.A) > 0 {
+					cd := m.concStr(sv.A[0], "Content-Disposition")
+					if mt, params, err := mime.ParseMediaType(cd); err == nil && mt == "form-data" {
+						p.field = params["name"]
+						p.filename, p.isFile = params["filename"], false
+						if _, has := params["filename"]; has {
+							p.isFile = true
+						}
+					}
+				}
+			}
+		}
+		return Tuple{partWriter(m, w, p), Iface{}}
 	})
 	R("(*mime/multipart.part).Write", func(m *Machine, a []Value) Value {
 		p := m.side[a[0].(Ptr)].(*Opaque).X.(*mpPart)
